@@ -4,6 +4,7 @@ GenOpt.tla enumerates carrier x type x nil/present x use x position; MSLang.tla 
 output, failure class; the `get` failure must name the position of that `get`.
 """
 from .. import common as C
+from .. import vmv
 from .. import gen, l1
 
 PID = "C12"
@@ -20,6 +21,11 @@ def run(tier, replay=None):
     cases.sort(key=lambda c: c["id"])
     C.log(f"[{PID}] {len(cases)} scenarios")
     dis, skips, st = l1.run_cases(binary, work, cases)
+    # the compiled code on the value machine MSVMV: per-instruction trace validation of the interpreter and
+    # translation validation of the compiler against MSLang (programs outside the machine's fragment are counted)
+    import random as _random
+    vres = vmv.stage(binary, work / "vmv", cases, 500 if tier == "quick" else 5000, _random.Random(rep.seed))
+    vcov = vmv.report(rep, vres, "optional scenario")
     byid = {c["id"]: c for c in cases}
     for c in cases:
         if c["rejected"]:
@@ -30,10 +36,10 @@ def run(tier, replay=None):
         rep.violation(f"{d['path']} {d['id']}",
                       f"{d['path']}: scenario {d['id']}: semantics prescribes {d['exp_out']} status={d['exp_status']} position={d['expect']}; real binary {d['obs_out']} exit={d['obs_exit']} {d['obs_fclass']} pos={d['obs_pos']}",
                       dict(case=c["id"], verdict=d, files={"main.ms": c["src"]}, stderr=[o["err"] for o in c["obs"]]))
-    rep.coverage = dict(
+    rep.coverage = dict(**vcov, traces_validated_against_impl=vres["recorded"],
         programs=len(cases), disagreements_checked=len(dis), out_of_model=len(skips),
         rejected_by_compiler=sum(1 for c in cases if c["rejected"]),
-        states=st["states"] + g.distinct, transitions=st["transitions"] + g.generated,
+        states=st["states"] + vres["states"] + g.distinct, transitions=st["transitions"] + vres["transitions"] + g.generated,
         nil_failures_with_position=sum(1 for c in cases if not c["rejected"] and c["obs"][0]["fclass"] == "nil"),
         evaluations=len(cases), distinct_nontrivial=len(cases),
         rule="GenOpt.tla: the full product carrier{var,param,result,elem} x type{int,str,list} x {nil,present} x 12 uses x 4 positions; exhaustive",
